@@ -380,6 +380,17 @@ def rule_r7(repo, run):
     import_rules(run, R, c02, repo, {"C02.R9"})
 
 
+def rule_x(repo, run):
+    R = run.rule("C01.R8", "shared necessary conditions decided by sibling checks: Fortran kinds of the type table "
+                           "(C04.R6), length/trim slots of string statements (C10.R2), per-variant names and generic "
+                           "interfaces that make every overload reachable (C08.R3, C08.R4)")
+    from checks import c04, c10, c08
+    from sa.report import import_rules
+    import_rules(run, R, c04, repo, {"C04.R6"})
+    import_rules(run, R, c10, repo, {"C10.R2"})
+    import_rules(run, R, c08, repo, {"C08.R3", "C08.R4"})
+
+
 def run(repo, run, tier):
     tables.check_model_assumptions(repo)
     table = tables.StatementTable(repo, "statements", "fc_statements")
@@ -390,3 +401,4 @@ def run(repo, run, tier):
     rule_r5(repo, run)
     rule_r6(repo, run)
     rule_r7(repo, run)
+    rule_x(repo, run)
